@@ -13,6 +13,7 @@ import Verif.Proofs.HtmlWs
 import Verif.Proofs.NumJson
 import Verif.Proofs.C16HtmlOpt
 import Verif.Proofs.C16JsVersion
+import Verif.Proofs.C16Svg
 /-!
 # C16 — options only restrict minification and are honoured
 
@@ -26,44 +27,41 @@ set_option maxRecDepth 1000000
 namespace Verif.Props.C16
 open Verif.Model.Options
 
-/-- full statement of the version gate: if the output uses a feature that is newer than the (non-zero) target
-    edition, the input already used it — for every feature, target and applicability of the rewrite -/
-def version_gate_full : Prop :=
-  ∀ (target : Nat) (f : Feature) (inputHas rw : Bool),
-    target ≠ 0 → target < f.since → emits target f inputHas rw = true → inputHas = true
-
-/-- **Version gate** (partial; guard = K-C16-3): for every feature whose rewrite site consults the version
-    (`guardOf f` is a literal — all but the property shorthand), every target and applicability of the rewrite -/
-theorem version_gate_partial (target : Nat) (f : Feature) (inputHas rw : Bool) (g : (guardOf f).isSome = true)
+/-- **Version gate** (full since 2252d4e; the property shorthand was ungated before: former K-C16-3).  If the output uses
+    a feature that is newer than the (non-zero) target edition, the input already used it — for every feature, target
+    and applicability of the rewrite. -/
+theorem version_gate (target : Nat) (f : Feature) (inputHas rw : Bool)
     (ht : target ≠ 0) (hnew : target < f.since) (he : emits target f inputHas rw = true) :
     inputHas = true := by
   cases inputHas with
   | true => rfl
   | false =>
     exfalso
-    cases f <;> simp [emits, gatePasses, guardOf, minVersion, Feature.since] at he g hnew <;> omega
-
-/-- **K-C16-3**: the property shorthand `{a}` (ES2015) is written for `{a:a}` whatever the target version -/
-theorem version_gate_counterexample : ¬ version_gate_full := by
-  intro h
-  exact absurd (h 5 .propertyShorthand false true (by decide) (by decide) (by decide)) (by decide)
+    cases f <;>
+      (simp only [emits, gatePasses, guardOf, minVersion, Feature.since, Bool.false_or, Bool.and_eq_true, Bool.or_eq_true,
+        beq_iff_eq] at he hnew
+       rcases he.2 with h | h
+       · omega
+       · have := of_decide_eq_true h; omega)
 
 /-- target 0 means "latest": every rewrite is allowed (non-vacuity of the gate's other branch) -/
 example : emits 0 .nullish false true = true := by decide
 example : emits 2019 .nullish false true = false := by decide
 example : emits 2019 .nullish true false = true := by decide
-example : (guardOf .nullish).isSome = true ∧ (2019 : Nat) ≠ 0 ∧ 2019 < Feature.since .nullish := by decide
+example : emits 5 .propertyShorthand false true = false ∧ emits 2015 .propertyShorthand false true = true := by decide
+example : (2019 : Nat) ≠ 0 ∧ 2019 < Feature.since .nullish := by decide
 
-/-- the guard sites in the source are exactly the four modelled ones (with the literals of `guardOf`), and every
+/-- the guard sites in the source are exactly the modelled ones (with the literals of `guardOf`), and every
     producer of newer syntax is one of: print-through of input syntax (`?.` is only printed for nodes that carry the
     Optional flag — the three `no-gate` sites; the one function that SETS that flag, toNullishExpr, is called inside
-    the body of the minVersion(2020) gate), a rewrite inside the body of its gate, or one of the two property-shorthand
-    sites, which do not consult the version: `minifyBinding` (a destructuring pattern, itself ES2015 syntax of the
-    input) and `minifyProperty` (an object literal: **K-C16-3**, `guardOf .propertyShorthand = none` in the model) -/
+    the body of the minVersion(2020) gate), a rewrite inside the body of its gate, the object-literal shorthand of
+    `minifyProperty` whose condition consults `minVersion(2015)`, or the shorthand of `minifyBinding` (a destructuring
+    pattern, itself ES2015 syntax of the input) -/
 theorem gates_ok :
     Verif.Gen.JsVersionGates.gates =
       ["jsMinifier.minifyExpr: minVersion(2015)", "jsMinifier.minifyExpr: minVersion(2016)",
-       "jsMinifier.minifyStmt: minVersion(2019)", "jsMinifier.optimizeCondExpr: minVersion(2020)"] ∧
+       "jsMinifier.minifyProperty: minVersion(2015)", "jsMinifier.minifyStmt: minVersion(2019)",
+       "jsMinifier.optimizeCondExpr: minVersion(2020)"] ∧
     Verif.Gen.JsVersionGates.producers =
       ["jsMinifier.minifyAlias: minifyString allowTemplate=false",
        "jsMinifier.minifyAlias: minifyString allowTemplate=false",
@@ -73,7 +71,7 @@ theorem gates_ok :
        "jsMinifier.minifyExpr: write(optChainBytes) inside no-gate",
        "jsMinifier.minifyExpr: write(optChainBytes) inside no-gate",
        "jsMinifier.minifyExpr: write(optChainBytes) inside no-gate",
-       "jsMinifier.minifyProperty: property shorthand (name: skipped when Name.IsIdent) gate no-gate",
+       "jsMinifier.minifyProperty: property shorthand (name: skipped when Name.IsIdent) gate minVersion(2015)",
        "jsMinifier.minifyPropertyName: minifyString allowTemplate=false",
        "jsMinifier.minifyStmt: minifyString allowTemplate=false",
        "jsMinifier.minifyStmt: minifyString allowTemplate=false",
@@ -125,8 +123,10 @@ theorem option_sites_ok :
        "html.Minifier.Minify: KeepComments if o.KeepComments", "html.Minifier.Minify: KeepConditionalComments WRITE",
        "html.Minifier.Minify: KeepConditionalComments if o.KeepConditionalComments",
        "html.Minifier.Minify: KeepDefaultAttrVals if !o.KeepDefaultAttrVals && (attr.Hash == Type && (t.Hash == S..",
-       "html.Minifier.Minify: KeepDocumentTags if !hasAttributes && !keepBody && (!o.KeepDocumentTags && (t.Ha..",
+       "html.Minifier.Minify: KeepDefaultAttrVals if t.Hash == Input && !o.KeepDefaultAttrVals",
+       "html.Minifier.Minify: KeepDocumentTags assigned to isDocTag",
        "html.Minifier.Minify: KeepEndTags if !o.KeepEndTags",
+       "html.Minifier.Minify: KeepEndTags if o.KeepEndTags && isDocTag",
        "html.Minifier.Minify: KeepQuotes arg of html.EscapeAttrVal",
        "html.Minifier.Minify: KeepSpecialComments WRITE",
        "html.Minifier.Minify: KeepSpecialComments if o.KeepSpecialComments",
@@ -577,6 +577,38 @@ theorem html_template_verbatim (o : Opts) (ext : Ext) (sub : Sub) :
   exact (ok_snd hs).symm
 
 end Html
+
+/-! ## SVG (`Verif.Model.SvgDoc`, the C05B model of the document loop of `svg.Minify`) -/
+section Svg
+open Verif.Model.SvgDoc Verif.SvgDoc Verif.Proofs.C16Svg
+
+/-- SVG `KeepComments`: a comment token that the loop meets is planned — and (`fillAt`) written — as it is, whatever
+    the state, `Inline` and the number printer.  (Tokens the loop never looks at — the inside of `metadata`, of
+    foreign-prefixed elements, of an empty `defs`, of the XML declaration — are skipped with their element for every
+    option; inside `foreignObject` everything, comments included, is copied verbatim for every option.) -/
+theorem svg_keep_comments (num : List Char → List Char) (inl : Bool) (st : St) (d : List Char) (r : List STok)
+    (e : Env) (br : Nat) :
+    plan num ⟨true, inl⟩ st 0 (.comment d :: r) = PTok.tok (.comment d) :: plan num ⟨true, inl⟩ st 0 r ∧
+    (fillAt e br (.tok (.comment d))).1 = .comment d :=
+  ⟨plan_comment num inl st d r, rfl⟩
+
+/-- SVG `KeepComments` does nothing else: what is written without the option is a subsequence of what is written with
+    it, and apart from comment tokens both runs plan exactly the same tokens — every token stream, state, look-ahead
+    counter -/
+theorem svg_keep_comments_only (num : List Char → List Char) (inl : Bool) (ts : List STok) (st : St) (k : Nat) :
+    List.Sublist (plan num ⟨false, inl⟩ st k ts) (plan num ⟨true, inl⟩ st k ts) ∧
+    (plan num ⟨true, inl⟩ st k ts).filter notComment = (plan num ⟨false, inl⟩ st k ts).filter notComment :=
+  ⟨plan_sublist num inl ts st k, plan_filter num inl ts st k⟩
+
+example :
+    let ts : List STok := [.startTag "svg".toList, .startTagClose, .comment "<!-- a -->".toList, .startTag "g".toList,
+      .startTagCloseVoid, .endTag "</svg>".toList "svg".toList]
+    let e : Env := ⟨fun _ _ _ => none, id, id⟩
+    svgMinify e ⟨true, false⟩ ts = "<svg><!-- a --><g/></svg>".toList ∧
+    svgMinify e ⟨false, false⟩ ts = "<svg><g/></svg>".toList := by
+  decide +kernel
+
+end Svg
 
 /-! ## the guarantees of the other properties under every option combination
 
